@@ -54,6 +54,7 @@ type Config struct {
 	DumpDir        string                   // where queries answered unknown are written
 	Trace          bool
 	Deadline       time.Time
+	VerifyUnsatEvery int   // cross-check every k-th unsat-pruned side with z3 5.1.0 and cvc5 (0 = off)
 	Prefix         []int32 // start exploration at this decision prefix
 	Single         bool    // follow one path only (debugging)
 }
@@ -99,6 +100,9 @@ type Result struct {
 	Queries        int64
 	SolverNanos    int64
 	Steps          int64
+	CrossChecked   int64 // unsat answers re-posed to the other solvers
+	CrossDisagree  int64
+	PathsRechecked int64 // completed paths whose final path condition was re-checked satisfiable
 	FreshRetries   int64 // queries re-posed to fresh solver processes after an incremental unknown
 	FreshDecided   int64
 	MapRangesFixed int64 // range over a map with >=2 entries executed in insertion order only
@@ -154,12 +158,17 @@ type path struct {
 	expectPan  bool
 	mapPerm    bool
 	defs       map[string]string
+	whereFn    func() string
+	intRanges  map[string][2]int64
 	script     []string
 }
 
+// fresh returns a name never used before in this solver session (z3 4.8.12 was
+// seen to answer from a stale body when a define-fun name was re-defined with a
+// different body after a pop).
 func (p *path) fresh(prefix string) string {
-	p.nameSeq++
-	return fmt.Sprintf("%s!%d", prefix, p.nameSeq)
+	p.sv.nameSeq++
+	return fmt.Sprintf("%s!%d", prefix, p.sv.nameSeq)
 }
 
 func (p *path) assert(t string) {
@@ -230,6 +239,31 @@ func (p *path) modelFresh(names []string) (map[string]string, bool) {
 	return nil, false
 }
 
+// crossCheckUnsat re-poses pc ∧ g, which the session answered unsat, to z3 5.1.0 and cvc5.
+func (p *path) crossCheckUnsat(g string) {
+	var b strings.Builder
+	b.WriteString("(set-logic ALL)\n")
+	for _, l := range p.script {
+		b.WriteString(l)
+		b.WriteByte('\n')
+	}
+	b.WriteString("(assert " + g + ")\n(check-sat)\n")
+	for _, spec := range fallbackSolvers[1:] {
+		cmd := exec.Command(spec.Argv[0], spec.Argv[1:]...)
+		cmd.Stdin = strings.NewReader(b.String())
+		out, _ := cmd.CombinedOutput()
+		ans := strings.TrimSpace(string(out))
+		atomic.AddInt64(&p.ex.res.CrossChecked, 1)
+		if ans == "sat" {
+			atomic.AddInt64(&p.ex.res.CrossDisagree, 1)
+			p.ex.inconclusive(fmt.Sprintf("solver disagreement: session said unsat, %s says sat [decisions %v]", spec.Name, p.decisions))
+			if p.ex.cfg.DumpDir != "" {
+				os.WriteFile(fmt.Sprintf("%s/disagree-%d.smt2", p.ex.cfg.DumpDir, atomic.AddInt64(&p.ex.dumpSeq, 1)), []byte(b.String()), 0o644)
+			}
+		}
+	}
+}
+
 // solveFresh decides pc ∧ extra with fresh solver processes.
 func (p *path) solveFresh(extra string) string {
 	var b strings.Builder
@@ -292,6 +326,10 @@ func (p *path) choose(guards []string, exhaustive bool) int {
 		if guards[k] != "" {
 			p.assert(guards[k])
 		}
+		if p.ex.cfg.Trace {
+			r := p.sv.checkSat()
+			fmt.Fprintf(os.Stderr, "TRACE decision %d = %d/%d guard=%.200s => pc %s at %s\n", pos, k, len(guards), guards[k], r, p.whereFn())
+		}
 		return k
 	}
 	res := p.ex.res
@@ -314,8 +352,12 @@ func (p *path) choose(guards []string, exhaustive bool) int {
 			feas = append(feas, k)
 			atomic.AddInt64(&res.SolverDecided, 1)
 		case "unsat":
-			atomic.AddInt64(&res.UnsatPruned, 1)
+			n := atomic.AddInt64(&res.UnsatPruned, 1)
 			atomic.AddInt64(&res.SolverDecided, 1)
+			if ve := p.ex.cfg.VerifyUnsatEvery; ve > 0 && n%int64(ve) == 0 {
+				// cross-check a sample of the pruned sides with the two other solvers (fresh processes)
+				p.crossCheckUnsat(g)
+			}
 		default:
 			feas = append(feas, k)
 			atomic.AddInt64(&res.UnknownKept, 1)
@@ -482,7 +524,26 @@ func Explore(cfg Config) *Result {
 				if !ok {
 					return
 				}
-				ex.runPath(sv, it.prefix, funcs, intr, stubs)
+				func() {
+					defer func() {
+						if r := recover(); r != nil {
+							// the solver process died (or another executor-level failure outside a path's own recovery):
+							// the path is inconclusive; continue with a fresh solver session
+							ex.inconclusive(fmt.Sprintf("worker failure on prefix %v: %v", it.prefix, r))
+							atomic.AddInt64(&res.Queries, sv.queries)
+							atomic.AddInt64(&res.SolverNanos, sv.nanos)
+							sv.close()
+							if nsv, err := newSolver(cfg.Solver, cfg.QueryTimeoutMs); err == nil {
+								sv = nsv
+							} else {
+								ex.mu.Lock()
+								ex.stop = true
+								ex.mu.Unlock()
+							}
+						}
+					}()
+					ex.runPath(sv, it.prefix, funcs, intr, stubs)
+				}()
 				ex.done()
 				n := atomic.AddInt64(&ex.pathsRun, 1)
 				if n >= cfg.PathBudget || (!cfg.Deadline.IsZero() && time.Now().After(cfg.Deadline)) {
@@ -537,6 +598,7 @@ func (ex *explorer) runPath(sv *solver, prefix []int32, funcs, intr, stubs map[s
 			i.runtimeErrorString = es.Object().Type()
 		}
 	}
+	p.whereFn = i.where
 	var panicMsg string
 	completed := false
 	func() {
@@ -589,6 +651,16 @@ func (ex *explorer) runPath(sv *solver, prefix []int32, funcs, intr, stubs map[s
 		}
 		v.PC = append([]string(nil), p.pc...)
 		ex.addViolation(v)
+	}
+	// vacuity / soundness guard: the path condition of a completed path must be satisfiable
+	if len(p.pc) > 0 {
+		switch p.sv.checkSat() {
+		case "unsat":
+			ex.inconclusive(fmt.Sprintf("completed path has an unsatisfiable path condition (executor or solver error) [decisions %v]", p.decisions))
+			return
+		case "sat":
+			atomic.AddInt64(&ex.res.PathsRechecked, 1)
+		}
 	}
 	n := atomic.AddInt64(&ex.res.Completed, 1)
 	if cfg.SampleEvery > 0 && len(p.assertFail) == 0 && (n%int64(cfg.SampleEvery) == 1 || cfg.SampleEvery == 1) {
